@@ -16,7 +16,7 @@ RULE = ("view = (name, code tree). Names: length 0..40 over [A-Za-z0-9_.%@] plus
         "Non-trivial: tree contains a restricted instruction or the name is at a boundary/has a special character. "
         "Distinct = distinct (name, code).")
 
-NAME_OK = re.compile(r"^[A-Za-z0-9_.%@]*$")
+NAME_OK = re.compile(r"\A[A-Za-z0-9_.%@]*\Z")  # \Z, not $: "$" also matches before a trailing newline
 RESTRICTED = ["TRANSFER_TOKENS", "CREATE_CONTRACT", "SET_DELEGATE"]
 PLAIN = ["DROP", "DUP", "SWAP", "UNIT", "NOW", "AMOUNT", "SENDER", "PAIR", "CAR", "SELF_ADDRESS", "FAILWITH"]
 UNIT = {"prim": "unit"}
@@ -154,7 +154,7 @@ def replay(case):
 
 
 OKCH = "abzAZ059_.%@"
-BADCH = " !-/\"é#"
+BADCH = " !-/\"é#\n\t\r\x00\u00a0\u0660$+:"
 
 
 @st.composite
@@ -166,7 +166,9 @@ def names(draw):
         n = draw(st.integers(0, 40))
     chars = [draw(st.sampled_from(OKCH)) for _ in range(n)]
     if mode in (1, 2) and n:
-        chars[draw(st.integers(0, n - 1))] = draw(st.sampled_from(BADCH))
+        # one forbidden character; first and last positions are as likely as all the inner ones together
+        pos = draw(st.sampled_from([0, n - 1, n - 1, draw(st.integers(0, n - 1))]))
+        chars[pos] = draw(st.sampled_from(BADCH))
     return "".join(chars)
 
 
